@@ -3,7 +3,6 @@ package crashrig
 import (
 	"errors"
 	"fmt"
-	"runtime"
 	"strings"
 
 	meta "github.com/nspcc-dev/neofs-node/pkg/local_object_storage/metabase"
@@ -129,8 +128,6 @@ type World struct {
 	OnOp func(op Op, phase string, err error) // phase "begin" / "end"
 	// Stats
 	PutErrs, Races, RacesParked int
-	// Panics of shard operations (see guard).
-	Panics []string
 	Log                         []string
 }
 
@@ -211,6 +208,18 @@ func (w *World) anyCached() bool {
 	return false
 }
 
+func (w *World) cachedCount() int {
+	n := 0
+	for c := range w.MaybeCached {
+		for i := range w.MaybeCached[c] {
+			if w.MaybeCached[c][i] {
+				n++
+			}
+		}
+	}
+	return n
+}
+
 // target draws a regular object, preferring ones satisfying pref.
 func (w *World) target(t *rapid.T, pref func(c, i int) bool) (int, int) {
 	var good [][2]int
@@ -262,6 +271,9 @@ func (w *World) Draw(t *rapid.T, al Allow, inner bool) Op {
 			}
 			add(KFlush, n)
 			add(KTick, n)
+			if w.cachedCount() >= 2 {
+				add(KTick, 3) // a batch flush (PutBatch) needs >= 2 small cached objects
+			}
 			if al.Race && w.anyCached() {
 				add(KRace, 4)
 			}
@@ -340,23 +352,6 @@ func (w *World) Draw(t *rapid.T, al Allow, inner bool) Op {
 	return op
 }
 
-// guard runs a shard operation and converts a runtime panic of the code under
-// test into an operation error (recorded in Panics): a crash of the operation
-// is a defect, but not a violation of C09/C15, and the history goes on as it
-// would after the process-level recover of the caller.
-func (w *World) guard(f func() error) (err error) {
-	defer func() {
-		if p := recover(); p != nil {
-			if _, ok := p.(runtime.Error); !ok {
-				panic(p) // rapid / harness panics pass through
-			}
-			w.Panics = append(w.Panics, fmt.Sprint(p))
-			err = fmt.Errorf("PANIC: %v", p)
-		}
-	}()
-	return f()
-}
-
 // Apply runs op on the live shard (between Rig.Begin and Rig.End, which the
 // caller does) and returns a harness error, if any. Errors of the shard
 // operations themselves are legitimate outcomes and only recorded.
@@ -413,12 +408,12 @@ func (w *World) Apply(op Op) error {
 			w.Present[op.C][op.I] = false
 		}
 	case KDel:
-		opErr = w.guard(func() error { return sh.Delete(uni.Cnr(op.C), []oid.ID{uni.OID(RegID(op.C, op.I))}) })
+		opErr = sh.Delete(uni.Cnr(op.C), []oid.ID{uni.OID(RegID(op.C, op.I))})
 		w.Present[op.C][op.I] = false
 		w.Pending[op.C][op.I] = false
 		w.MaybeCached[op.C][op.I] = false
 	case KGC:
-		opErr = w.guard(func() error { sh.VerifGCPass(); return nil })
+		sh.VerifGCPass()
 		w.Pending = [NCnr][NReg]bool{}
 	case KEpoch:
 		d := uint64(op.Exp)
